@@ -519,7 +519,8 @@ def call_opaque(it, f, args, kwargs, node):
     it.opaque_log.append((tag, list(args), dict(kwargs), it.site(node)))
     e = it.effect("ext-call", "call:" + tag, node, "opaque call %s" % tag)
     e.detail = ("opaque", tag, touched)
-    u = VUnknown("ret(%s)" % tag, "unknown")
+    it.opaque_count = getattr(it, "opaque_count", 0) + 1
+    u = VUnknown("ret(%s)#%d" % (tag, it.opaque_count), "unknown")  # every call of an unknown callable returns its own value
     u.callee = f
     u.call_args = (args, kwargs)
     return u
